@@ -688,6 +688,12 @@ def _slice_parts(s, n):
 
 
 def index_array(a, key):
+    if type(key).__name__ == "TriuIdx":
+        from .models import PairBag
+        if a.ndim != 2:
+            raise Unsupported("triangular selection of a non 2-d array")
+        f = a.snapshot_fn()
+        return PairBag(key, lambda i, j: f((i, j)))
     if not isinstance(key, tuple):
         key = (key,)
     key = tuple(from_nested(k, dtype=None) if isinstance(k, list) else k for k in key)
@@ -1260,6 +1266,8 @@ def _seq_ite(c, fa, fb):
     b = e.under(z3.Not(zb(c)), fb)
     if isinstance(a, (list, tuple)) and isinstance(b, (list, tuple)) and len(a) == len(b):
         return type(a)(_seq_ite(c, (lambda x=x: x), (lambda y=y: y)) for x, y in zip(a, b))
+    if isinstance(a, SymSeq) and isinstance(b, SymSeq):
+        return SymSeq(ite(c, a.n, b.n), lambda k: _seq_ite(c, (lambda: a.get(k)), (lambda: b.get(k))))
     if isinstance(a, Arr) and isinstance(b, Arr) and a.ndim == b.ndim:
         fa2, fb2 = a.snapshot_fn(), b.snapshot_fn()
         r = Arr(a.shape, lambda idx: ite(c, fa2(idx), fb2(idx)), dtype=a.kind)
@@ -1278,4 +1286,12 @@ def seq_to_array(s, dtype=None):
                    dtype=dtype or "float")
     if isinstance(probe, Arr):
         return Arr((s.n,) + probe.shape, lambda idx: g(idx[0]).get(*idx[1:]), dtype=dtype or probe.kind)
+    if isinstance(probe, SymSeq):
+        # a list of equally long lists (NumPy would refuse ragged input for a numeric dtype: rows are taken to have the first row's length)
+        inner = probe.get(0) if not isinstance(probe.n, int) or probe.n > 0 else None
+        if isinstance(inner, (list, tuple)):
+            w = len(inner)
+            return Arr((s.n, probe.n, w), lambda idx: table_lookup({(i,): v for i, v in enumerate(g(idx[0]).get(idx[1]))}, (idx[2],)), dtype=dtype or "float")
+        if inner is not None and not isinstance(inner, (Arr, SymSeq)):
+            return Arr((s.n, probe.n), lambda idx: g(idx[0]).get(idx[1]), dtype=dtype or "float")
     return Arr((s.n,), lambda idx: g(idx[0]), dtype=dtype or "float")
